@@ -1,3 +1,4 @@
+import EV.Props.C08lookup
 import EV.Proofs.MempoolObs
 import EV.Proofs.MempoolFinite
 
